@@ -640,9 +640,19 @@ def rev_check(ax, case, rec):
     M = abs(first_moment(np.array(m.points, float), np.array(m.cells), ct, comp))
     phi = case["phi"]
     n = max(case["nrev"], int(np.ceil(phi / 60.0)) + 1)
-    r = m.revolve(n=n, phi=phi, axis=axis) if ct == "quad" else m.revolve(n=n, phi=phi)
-    dth = np.deg2rad(phi) / (n - 1)
-    V = (n - 1) * np.sin(dth) * M  # polygonal (chord) body of revolution
+    if case["nrev"] % 2 == 0 and phi < 360.0:
+        # the angles given one by one (not equidistant)
+        w = 0.5 + np.random.default_rng(case["nrev"] * 1000 + int(phi)).uniform(0, 1, n - 1)
+        phis = np.concatenate([[0.0], np.cumsum(w / w.sum() * phi)])
+        while np.diff(phis).max() > 60.0:
+            phis = np.sort(np.concatenate([phis, 0.5 * (phis[:-1] + phis[1:])]))
+        r = m.revolve(phi=phis, axis=axis) if ct == "quad" else m.revolve(phi=phis)
+        V = float(np.sin(np.deg2rad(np.diff(phis))).sum()) * M
+        rec.label("angles-as-array")
+    else:
+        r = m.revolve(n=n, phi=phi, axis=axis) if ct == "quad" else m.revolve(n=n, phi=phi)
+        dth = np.deg2rad(phi) / (n - 1)
+        V = (n - 1) * np.sin(dth) * M  # polygonal (chord) body of revolution
     vol = volumes(np.asarray(r.points, float), np.asarray(r.cells), r.cell_type)
     rec.nontrivial = True
     rec.close("covered-volume", abs(float(np.abs(vol).sum()) - V) / V, 1e-10, {"phi": phi, "n": n})
